@@ -61,6 +61,16 @@ ScatterConserves == Part = "A" =>
 
 ParamsA == [r0 : {0, NY - 1}, c0 : {0, 1}, dr : {0, 1, 2}, dc : {0, 1}, a : {1, 2}, b : {1, 3}]
 
+\* Detector centring.  fftshift moves index i of a corner-centred axis of length n to (i + n div 2) mod n;
+\* its inverse (ifftshift) moves i to (i + n - n div 2) mod n.  The two are the same permutation exactly for
+\* even n, so code that centres with fftshift must un-centre with ifftshift (the Fourier projection of the
+\* pinned tree used fftshift twice: measured amplitudes rolled by one pixel for odd ROI sizes).
+FftShift(i, n) == (i + (n \div 2)) % n
+IfftShift(i, n) == (i + n - (n \div 2)) % n
+CentringInverse == \A n \in 2..9 : \A i \in 0..(n - 1) :
+                     /\ IfftShift(FftShift(i, n), n) = i
+                     /\ (FftShift(FftShift(i, n), n) = i) <=> ((n % 2) = 0)
+
 ---------------------------------------------------------------------------
 (* Part B *)
 Steps == {<<"T", <<4, 0>>>>, <<"T", <<-4, 8>>>>, <<"T", <<1, 2>>>>, <<"T", <<-1, -2>>>>, <<"T", <<3, -2>>>>, <<"T", <<0, -4>>>>,
